@@ -210,10 +210,136 @@ func runC07(rc *sim.RunCtx) {
 		chosen = append(chosen, all[t.Choose(len(all))])
 	}
 	preSnapIdx := target - 1
+	if t.Bool(1, 4) {
+		// the cancel leg: the target transaction is left open and cancelled; one collaborator call of the rollback fails once
+		c07cancelLeg(rc, hist, target, seqVal, devKind)
+		return
+	}
 	for _, fl := range chosen {
 		if !c07one(rc, hist, target, coldSchema, seqVal, devKind, fl, refSnaps, preSnapIdx) {
 			return
 		}
+	}
+}
+
+// c07cancelLeg: the request that meets the fault is TransactionCancel. History up to the target is applied and confirmed, the target
+// is applied and left open, then cancelled (a) fault free with a counting pass over the rollback's collaborator calls - the
+// reference - and (b) per sampled call with that call failing once; a Cancel that returned an error is repeated once the fault is
+// gone and must then succeed and end in the reference state, and the datastore must accept a new transaction.
+func c07cancelLeg(rc *sim.RunCtx, hist []*TxSpec, target int, seqVal bool, devKind string) {
+	t := rc.T
+	rc.Probe("cancel-leg")
+	prep := func() (*c07world, bool) {
+		cw, err := newC07World(rc, seqVal, devKind)
+		if err != nil {
+			rc.HarnessErr("world: %v", err)
+			return nil, false
+		}
+		for i := 0; i <= target; i++ {
+			time.Sleep(time.Second)
+			rc.AddSim(1)
+			res := ExecTx(rc, cw.w, hist[i], 5*time.Second)
+			cw.w.NoteTimer(30 * time.Second)
+			if !res.Accepted() {
+				cw.w.Close()
+				return nil, false
+			}
+			if i < target {
+				Confirm(rc, cw.w, hist[i].ID)
+			}
+		}
+		return cw, true
+	}
+	// (a) reference
+	ref, ok := prep()
+	if !ok {
+		return
+	}
+	ref.plan.Active = true
+	err := Cancel(rc, ref.w, hist[target].ID)
+	ref.plan.Active = false
+	calls := append([]string(nil), ref.plan.Calls...)
+	if err != nil {
+		ref.w.Close()
+		rc.Scenario("cancel leg: the fault-free cancel failed (%v); leg skipped", normErr(err))
+		return
+	}
+	refSnap, serr := takeSnap(ref.w)
+	ref.w.Close()
+	if serr != nil {
+		rc.HarnessErr("snap: %v", serr)
+		return
+	}
+	rc.Scenario("cancel leg: TransactionCancel(%s) makes %d collaborator calls", hist[target].ID, len(calls))
+	var all []c07fault
+	for i, c := range calls {
+		switch {
+		case c == "target.Set":
+			all = append(all, c07fault{i, c, "dev-reject"}, c07fault{i, c, "dev-unreachable"})
+		case strings.HasPrefix(c, "cache.Modify"), strings.HasPrefix(c, "cache.GetKeys"), c == "schema.GetSchema":
+			all = append(all, c07fault{i, c, "error"})
+		}
+	}
+	if len(all) == 0 {
+		return
+	}
+	n := 3
+	if rc.Tier == "thorough" {
+		n = 8
+	}
+	for j := 0; j < n; j++ {
+		fl := all[t.Choose(len(all))]
+		cw, ok := prep()
+		if !ok {
+			return
+		}
+		rc.Step()
+		rc.NonTrivial()
+		rc.Fault("cancel:" + fl.kind + "@" + strings.SplitN(fl.call, ":", 2)[0])
+		rc.SigAdd(fmt.Sprintf("cancel|%s|%s", fl.kind, fl.call))
+		rc.Logf("=== cancel fault run: %s at call #%d (%s) of the cancel of transaction #%d", fl.kind, fl.idx, fl.call, target)
+		f := map[string]string{"fault": fl.kind, "call": fl.call, "callidx": fmt.Sprint(fl.idx), "edits": renderEdits(hist[target]), "request": "cancel"}
+		cw.plan.Target, cw.plan.Kind, cw.plan.Active = fl.idx, fl.kind, true
+		err1 := Cancel(rc, cw.w, hist[target].ID)
+		cw.plan.Active = false
+		if cw.plan.Fired && err1 != nil {
+			time.Sleep(time.Second)
+			rc.AddSim(1)
+			if err2 := Cancel(rc, cw.w, hist[target].ID); err2 != nil {
+				ff := copyFields(f)
+				ff["error"] = normErr(err2)
+				rc.Report(sim.Item{Prop: "C07", Clause: "C07.cancel-retry-refused", Fields: ff, Detail: fmt.Sprintf("TransactionCancel failed on an injected fault (%v); repeated once the fault was gone it failed again: %v", normErr(err1), normErr(err2))})
+				cw.w.Close()
+				continue
+			}
+		}
+		if cw.plan.Fired {
+			snap, err := takeSnap(cw.w)
+			if err != nil {
+				rc.HarnessErr("snap: %v", err)
+				cw.w.Close()
+				return
+			}
+			for _, d := range []struct {
+				name string
+				a, b []string
+			}{{"device", refSnap.dev, snap.dev}, {"intended", refSnap.intended, snap.intended}} { // (the statement names device and intent store; the running mirror is also fed by sync)
+				x, y := diffSets(d.a, d.b)
+				if len(x)+len(y) > 0 {
+					ff := copyFields(f)
+					ff["store"] = d.name
+					rc.Report(sim.Item{Prop: "C07", Clause: "C07.cancel-diverged-after-retry", Fields: ff, Detail: fmt.Sprintf("%s after the (repeated) cancel differs from the fault-free cancel: missing %v extra %v", d.name, x, y)})
+				}
+			}
+			// the datastore must be free again
+			probe := &TxSpec{ID: "after-cancel", DryRun: true, Intents: hist[target].Intents}
+			if r := ExecTx(rc, cw.w, probe, 5*time.Second); r.Err != nil && strings.Contains(r.Err.Error(), "locked") {
+				rc.Report(sim.Item{Prop: "C07", Clause: "C07.locked-after-cancel", Fields: f, Detail: "the datastore refuses a new transaction after the cancel: " + normErr(r.Err)})
+			}
+		} else {
+			rc.Probe("fault-not-reached")
+		}
+		cw.w.Close()
 	}
 }
 
